@@ -523,6 +523,42 @@ def tzFromBinary (c : Cls) (raw : Bytes) : PyRes TzCfg :=
   if c.tzSize = 0 then .error .spsdk       -- family without TrustZone database: `get_preset_data_size` / the preset file lookup raise
   else if raw.length / 4 < c.tzSize / 4 then .error .spsdk else .ok (.custom (raw.take c.tzSize))
 
+/-! ## configuration path: the TrustZone keys (`mix_load_from_config`; loaders and their decisions are GENERATED) -/
+
+/-- the two TrustZone keys of a configuration: `enableTrustZone` (absent / a boolean) and `trustZonePresetFile`
+    (absent / the empty string / a binary preset file with the given content; YAML preset files are property C12) -/
+structure TzKeys where
+  enable : Option Bool := none
+  preset : Option (Option Bytes) := none
+  deriving Repr, DecidableEq
+
+def TzKeys.enableTruthy (k : TzKeys) : Bool := k.enable.getD false
+def TzKeys.presetTruthy (k : TzKeys) : Bool := match k.preset with | some (some _) => true | _ => false
+
+/-- the class whose `mix_load_from_config` decides the TrustZone of images of this class (Python's MRO over the mixin list:
+    `load_from_config` calls every mixin's loader; at most one mixin of a database class reads the TrustZone keys) -/
+def Cls.tzLoader (c : Cls) : Option MixinName := c.mixins.findSome? Generated.MbiClasses.tzConfigLoader
+
+/-- the TrustZone setting `load_from_config` gives the image (`none`: the class has no TrustZone setting) -/
+def tzOfConfig (c : Cls) (k : TzKeys) : PyRes (Option TzCfg) :=
+  match c.tzLoader with
+  | none => .ok none
+  | some l =>
+    match Generated.MbiClasses.tzLoad l k.enableTruthy k.presetTruthy with
+    | none => .error .other
+    | some .disabled => .ok (some .disabled)
+    | some .enabled => .ok (some .enabled)
+    | some .preset =>
+      match k.preset with
+      | some (some d) => (tzFromBinary c d).map some
+      | _ => .error .other
+
+/-- what the configuration REQUESTS (schema text of `enableTrustZone` / `trustZonePresetFile`, independent of the loaders):
+    optional TrustZone - disabled unless enabled, then the preset file if one is named, else the default;
+    mandatory TrustZone - the preset file if one is named, else the default -/
+def tzRequestedTag (optional : Bool) (k : TzKeys) : Nat :=
+  if optional && !k.enableTruthy then tzDisabled else if k.presetTruthy then tzCustom else tzEnabled
+
 def parseManifest (c : Cls) (k : ManifestKind) (d : Bytes) : PyRes (Nat × Nat × Bytes) :=
   if d.length < manifestHeaderSize then .error .other else     -- struct.error
   let magic := d.take 4
